@@ -22,9 +22,9 @@ from .runner import (EXIT_HARNESS, EXIT_OK, EXIT_VIOLATION, WORKERS, HarnessFail
 
 TIERS = {
     "quick": {"gen": 80, "refused": 16, "cli": 24, "dec_small": 18, "dec_big": 12, "dec_bad": 8,
-              "examples": "once", "reps": 8, "hist_len": 25, "families": 1},
+              "examples": "once", "reps": 8, "hist_len": 25, "families": 1, "marathons": 1},
     "thorough": {"gen": 900, "refused": 120, "cli": 80, "dec_small": 150, "dec_big": 24,
-                 "dec_bad": 60, "examples": "many", "reps": 40, "hist_len": 30, "families": 6},
+                 "dec_bad": 60, "examples": "many", "reps": 40, "hist_len": 30, "families": 6, "marathons": 6, "extra_bursts": 3},
 }
 WORKER = os.path.join(VERIF_DIR, "sim", "c12_worker.py")
 
@@ -290,6 +290,25 @@ def build_histories(seed, pool, tier):
     for a in range(0, len(order), 20):
         ops = [i for i in order[a:a + 20] for _ in (0, 1)]
         hist.append({"proc": len(hist), "hashseed": hs.randrange(1, 2 ** 32 - 1), "ops": ops})
+    # first call: one op of every option class alone at the start of a fresh process (lazy
+    # initialisation may take another path on the first call than on all later ones)
+    seen_cls = set()
+    for i in order:
+        c = (pool[i]["t"], pool[i]["oclass"])
+        if c not in seen_cls:
+            seen_cls.add(c)
+            hist.append({"proc": len(hist), "hashseed": hs.randrange(1, 2 ** 32 - 1), "ops": [i]})
+    # marathons: several hundred cheap ops in one process (bounded caches that evict, counters
+    # that wrap, lists that get trimmed only show after many calls)
+    cheap = [i for i, op in enumerate(pool)
+             if (op["t"] != "decode" and len(op["text"]) < 1500) or (op["t"] == "decode" and len(op["data"]) < 2000)]
+    for _ in range(cfg.get("marathons", 1)):
+        seq = []
+        for _ in range(3):
+            o2 = list(cheap)
+            r.shuffle(o2)
+            seq.extend(o2)
+        hist.append({"proc": len(hist), "hashseed": hs.randrange(1, 2 ** 32 - 1), "ops": seq[:600]})
     # relatives: the same program text under different option sets (and the same options on
     # different texts) back to back, in both orders - where a memo keyed by the text alone,
     # or by the options alone, would answer from the wrong entry
@@ -336,6 +355,7 @@ def process_environment(hashseed):
     return {
         "epoch": r.choice((0.0, 86399.0, 946684799.0, 1700000000.0, 4102444800.0)) + r.randrange(10 ** 6),
         "tick": r.choice((1e-6, 0.001, 0.75, 61.0, 86400.0)),
+        "cpu_count": r.choice((1, 2, 16, 128)),
         "cwd": r.choice(CWDS),
         "environ": {"TZ": r.choice(TZS), "USER": r.choice(("root", "alice", "bob")),
                     "LOGNAME": r.choice(("root", "alice")), "HOME": r.choice(("/root", "/home/alice", "/")),
